@@ -9,7 +9,7 @@ from ..oracle import cal
 
 TMP = os.path.join(os.path.dirname(os.path.dirname(os.path.dirname(os.path.abspath(__file__)))), ".build", "tmp")
 # junk never contains digits, so nothing but the planted dates can be taken for a date
-JUNK = [bytes([c]) for c in range(1, 256) if c not in (10, 13) and not (48 <= c <= 57)]
+JUNK = [bytes([c]) for c in range(0, 256) if c not in (10, 13) and not (48 <= c <= 57)]
 WORDS = [b"alpha", b"beta;", b"log:", b"--", b"x", b"(see", b"ok)", b"\xc3\xa4\xc3\xb6", b"\t", b"#", b"=>", b"note", b"T", b"b", b"W"]
 LEFT = [b" ", b"(", b"[", b"<", b"=", b",", b";", b"\t", b":", b"'", b'"']
 RIGHT = [b" ", b")", b"]", b">", b",", b";", b".", b"\t", b"'", b'"', b" b"]
@@ -123,8 +123,8 @@ def mk_stream(rng, conv, shape, mode=None):
         pad = junk(rng, 3990, False)
         if pad[-1:].isalnum() or pad[-1:] in b"-+:/.":
             pad = pad[:-1] + b" "
-        var = int(shape.split(":")[1]) % 4 if ":" in shape else rng.randrange(4)
-        npre, hlen = [(500, 15 << 20), (1200, 14 << 20), (3, 9 << 20), (0, 3 << 20)][var]
+        var = int(shape.split(":")[1]) % 5 if ":" in shape else rng.randrange(5)
+        npre, hlen = [(500, 15 << 20), (1200, 14 << 20), (3, 9 << 20), (0, 3 << 20), (0, 16750000)][var]
         for _ in range(npre):
             i, o, nd = mk_line(rng, conv, rng.choice(["date", "junk"]))
             lines.append((pad + i, pad + o, nd))
@@ -375,17 +375,17 @@ def main(tier, seed):
         tasks.append((bindir, seed * 7 + 100000 + i, 1, ["many-lines"]))
     for i in range(4 if quick else 32):
         tasks.append((bindir, seed * 11 + 200000 + i, 1, ["many-bytes"]))
-    for i in range(4 if quick else 24):
+    for i in range(5 if quick else 25):
         tasks.append((bindir, seed * 13 + 300000 + i, 1, ["huge-line:%d" % i]))
     for sh in core.pmap(stream_task, tasks[::-1]):
         ctx.merge(sh)
     ctx.rule = ("events = one run of dconv -S -f, dconv -S, dadd -S +1d or dround -S Mon over a generated byte stream delivered from a "
                 "file; 'transparent': the whole output equals the model (every line in order, planted dates replaced by the expected "
-                "result, everything else byte for byte; junk holds any byte but digits, CR, LF; a CR before LF is dropped; the last "
+                "result, everything else byte for byte; junk holds any byte (NUL included) but digits, CR, LF; a CR before LF is dropped; the last "
                 "line gets its line feed); 'chunking': the same stream under other read() schedules (1..4095 bytes per read, random "
                 "sizes, cuts next to line ends, CRs and multiples of 4096, and a real pipe written in pieces with pauses) gives the same bytes and status as the baseline; shapes: "
                 "small, line ends/dates at 4096 boundaries, lines of 1000..70000 bytes, 16383..40000 lines (line window), 17 MiB (byte "
-                "window), one line of 3..15 MiB, CRLF/mixed/no final line feed, a stream ending inside a date behind 0..32768 equal-length lines, near-miss fragments (12:xx, 7:, 2000-) next to dates; 'final-lf': a stream without final line feed gives the output of the same stream with it; ASan/UBSan on the exact-size window + probe H4 (window offsets ordered, "
+                "window), one line of 3 MiB .. 16.75 MB (the window holds 16 MiB less one read), CRLF/mixed/no final line feed, a stream ending inside a date behind 0..32768 equal-length lines, near-miss fragments (12:xx, 7:, 2000-) next to dates; 'final-lf': a stream without final line feed gives the output of the same stream with it; ASan/UBSan on the exact-size window + probe H4 (window offsets ordered, "
                 "bytes out + held == bytes read) on every fill. distinct_nontrivial = distinct (tool, shape, line ends, final "
                 "line feed, schedule kind)")
     ctx.assumptions = ["no single line exceeds the 16 MiB window (such a line is handed out in pieces)", "dates are planted between non-alphanumeric neighbours (2012-01-02b is a business-day spelling)",
